@@ -231,6 +231,44 @@ def wfrLines (s : Settings) : List Str → List Str → List Str → WfrResult
 
 def writeForRun (s : Settings) (text : Str) : WfrResult := wfrLines s (linesKeep text) (keys s) []
 
+/-! ### word-by-word specification of `write_for_run` (what "changes exactly the requested entries" means)
+
+A line is `w0 ++ t₁ ++ w₁ ++ … ++ tₙ ++ wₙ` (leading white space, then words each followed by white space).
+The specification replaces a word by the requested value iff the word IS a requested variable and keeps every
+other character; a word that merely contains a variable name is kept. -/
+
+def body : List (Str × Str) → Str
+  | [] => []
+  | tw :: r => tw.1 ++ (tw.2 ++ body r)
+
+def decompGo : Nat → Str → List (Str × Str)
+  | 0, _ => []
+  | fuel + 1, s =>
+    if s.isEmpty then []
+    else
+      let r := s.dropWhile (fun c => !isSpace c)
+      (s.takeWhile (fun c => !isSpace c), r.takeWhile isSpace) :: decompGo fuel (r.dropWhile isSpace)
+
+/-- leading white space and the (token, following white space) pairs of a line -/
+def decomp (l : Str) : Str × List (Str × Str) :=
+  (l.takeWhile isSpace, decompGo l.length (l.dropWhile isSpace))
+
+/-- a word is replaced iff it is a requested variable -/
+def wordOf (s : Settings) (t : Str) : Str :=
+  match lookup s t with
+  | some v => v
+  | none => t
+
+/-- SPEC: the line with exactly the words that are requested variables set to their values -/
+def wordsLine (s : Settings) (l : Str) : Str :=
+  (decomp l).1 ++ body ((decomp l).2.map (fun tw => (wordOf s tw.1, tw.2)))
+
+/-- SPEC: the whole file, line by line -/
+def wordsText (s : Settings) (text : Str) : Str := ((linesKeep text).map (wordsLine s)).flatten
+
+/-- the variables of `s` that are words of the line, in dict order (the only ones `write_for_run` acts on) -/
+def onLine (s : Settings) (l : Str) : Settings := s.filter (fun kv => decide (kv.1 ∈ splitWS l))
+
 /-! ### line-protocol handler (ops `mdp…`, `wfr…`) -/
 open Infretis.Proto
 
@@ -288,6 +326,10 @@ def handle (toks : List String) : Option String :=
     | some t, some (s, []) =>
       let r := writeForRun s t
       some (showErr r.err ++ " " ++ hexStr (ofStr r.written.flatten))
+    | _, _ => some "bad-op"
+  | "wfrwords" :: t :: rest =>
+    match parseStr? t, takeSettings rest with
+    | some t, some (s, []) => some (hexStr (ofStr (wordsText s t)))
     | _, _ => some "bad-op"
   | ["splitws", t] =>
     match parseStr? t with
